@@ -17,6 +17,9 @@ def main():
     except ImportError as e:
         print("no check for %s: %s" % (prop, e), file=sys.stderr)
         return 2
+    if a.replay:
+        a.replay = os.path.abspath(a.replay)
+        os.environ["VERIF_REPLAYING"] = "1"
     try:
         return mod.main(a.tier, replay=a.replay, selftest=a.selftest)
     except vlib.ToolError as e:
